@@ -78,6 +78,12 @@ def gen(W):
     sc["second_file"] = W.chance(0.25)
     sc["surrogate_message"] = W.chance(0.15)
     sc["client_stalls"] = W.chance(0.3)
+    # a low mark parks the producing worker on the output buffer; a disconnect then has to release it
+    sc["watermark"] = W.choice([16777216, 200, 0], p0=0.6)
+    if sc["watermark"] != 16777216:
+        # (a client that never reads keeps such a producer parked for good - legitimately - and with it the
+        # worker the probe connection needs)
+        sc["client_stalls"] = False
     return sc
 
 
@@ -99,7 +105,7 @@ def one_run(sc, placement, sub_id):
     tapes = Tapes(sc["sub_seed"], "C09sub", sub_id)
     knobs = dict(threads=sc["threads"], expose_tracebacks=sc["expose"], log_socket_errors=sc["log_socket_errors"],
                  channel_request_lookahead=sc["lookahead"], send_bytes=sc["send_bytes"],
-                 asyncore_use_poll=sc["use_poll"])
+                 asyncore_use_poll=sc["use_poll"], outbuf_high_watermark=sc.get("watermark", 16777216))
     net = NetConfig(sendbuf_len=sc["sendbuf_len"], sndbuf_cap=sc["sndbuf_cap"])
     sim = Simulation(tapes, knobs=knobs, net=net, sched=sc["sched"], trace=sc["trace"], horizon=80.0)
     k = sim.k
@@ -148,7 +154,9 @@ def one_run(sc, placement, sub_id):
     stream = build_request(sc["method"], "/a", sc["version"], hdrs, rb)
     stream += build_request("GET", "/b", "1.1", [("Host", "s")])
     csteps = [("send", stream)]
-    if (sc.get("client_stalls") and placement and placement[0] == "net") or (placement and placement[0] == "combo"):
+    if (sc.get("client_stalls") and placement and placement[0] == "net") or \
+            (placement and placement[0] == "combo" and sc.get("watermark", 16777216) == 16777216):
+        # (with a low mark a client that never reads keeps the producer parked for good, legitimately)
         csteps = [("mode", "stalled")] + csteps
     sim.add_client(csteps, cid=0)
     state = {"probe": None}
